@@ -245,7 +245,9 @@ func dscFields() []FSpec {
 		{"Uploaders", "Uploaders", "list", []Variant{list([]string{"Jane Roe <jane@example.org>", "John Doe <jd@example.org>"}, "Jane Roe <jane@example.org>, John Doe <jd@example.org>"),
 			list([]string{"Jane Roe <jane@example.org>"}, "Jane Roe <jane@example.org>"),
 			list([]string{"Jane Roe <jane@example.org>", "John Doe <jd@example.org>", "A B <c@d>"}, "Jane Roe <jane@example.org>,", "John Doe <jd@example.org>,", "A B <c@d>"),
-			list([]string{"Jane Roe <jane@example.org>", "Santiago Vila <sanvila@debian.org>", "Jane Roe <jane@example.org>"}, "Jane Roe <jane@example.org>, Santiago Vila <sanvila@debian.org>, Jane Roe <jane@example.org>")}},
+			list([]string{"Jane Roe <jane@example.org>", "Santiago Vila <sanvila@debian.org>", "Jane Roe <jane@example.org>"}, "Jane Roe <jane@example.org>, Santiago Vila <sanvila@debian.org>, Jane Roe <jane@example.org>"),
+			// names that begin or end with a character whose code point has a blank, newline or carriage return as its low byte
+			list([]string{"\u0120or\u0121 Borg <g@example.org>", "\u010aensu Tabone <c@example.org>", "Ren\u00e9 \u010d", "Dagger \u2020"}, "\u0120or\u0121 Borg <g@example.org>, \u010aensu Tabone <c@example.org>,", "Ren\u00e9 \u010d, Dagger \u2020")}},
 		{"Homepage", "Homepage", "scalar", []Variant{scalar("https://www.gnu.org/software/hello/")}},
 		{"Standards-Version", "StandardsVersion", "scalar", []Variant{scalar("4.6.2")}},
 		{"Build-Depends", "BuildDepends", "dep", depVariants()},
@@ -287,7 +289,8 @@ func sourceParaFields() []FSpec {
 		{"Uploaders", "Uploaders", "list", []Variant{list([]string{"Jane Roe <jane@example.org>", "John Doe <jd@example.org>"}, "Jane Roe <jane@example.org>, John Doe <jd@example.org>"),
 			list([]string{"Jane Roe <jane@example.org>"}, "Jane Roe <jane@example.org>"),
 			list([]string{"Jane Roe <jane@example.org>", "John Doe <jd@example.org>"}, "Jane Roe <jane@example.org>,", "John Doe <jd@example.org>"),
-			list([]string{"Santiago Vila <sanvila@debian.org>", "Jane Roe <jane@example.org>", "Santiago Vila <sanvila@debian.org>"}, "Santiago Vila <sanvila@debian.org>, Jane Roe <jane@example.org>, Santiago Vila <sanvila@debian.org>")}},
+			list([]string{"Santiago Vila <sanvila@debian.org>", "Jane Roe <jane@example.org>", "Santiago Vila <sanvila@debian.org>"}, "Santiago Vila <sanvila@debian.org>, Jane Roe <jane@example.org>, Santiago Vila <sanvila@debian.org>"),
+			list([]string{"\u0120or\u0121 Borg <g@example.org>", "\u010aensu Tabone <c@example.org>", "Ren\u00e9 \u010d", "Dagger \u2020"}, "\u0120or\u0121 Borg <g@example.org>, \u010aensu Tabone <c@example.org>,", "Ren\u00e9 \u010d, Dagger \u2020")}},
 		{"Build-Depends", "BuildDepends", "dep", depVariants()},
 		{"Build-Depends-Indep", "BuildDependsIndep", "dep", depVariants()},
 		{"Build-Conflicts", "BuildConflicts", "dep", depVariants()},
